@@ -44,6 +44,11 @@ pub struct Scn {
     pub interrupts: Vec<u16>,
     /// downstream call number from which every write fails (hard-error profile)
     pub hard_error_at: Option<u16>,
+    /// encodes performed before this one on the same thread (results ignored,
+    /// typically against a failing writer): state must not leak from one
+    /// record into the next
+    #[serde(default)]
+    pub prelude: Vec<Scn>,
 }
 
 fn render_spec(s: &Option<Spec>) -> String {
@@ -179,7 +184,24 @@ pub fn generate(rng: &mut Rng, _tier: Tier, hard: bool) -> Scn {
         accept,
         interrupts,
         hard_error_at: if hard { Some(rng.below(12) as u16) } else { None },
+        prelude: vec![],
     }
+}
+
+/// A healthy encode preceded, on the same thread, by 1-2 encodes into a writer that fails for good.
+pub fn generate_sequence(rng: &mut Rng, tier: Tier) -> Scn {
+    let mut main = generate(rng, tier, false);
+    let n = rng.range(1, 2);
+    for _ in 0..n {
+        let mut p = generate(rng, tier, true);
+        if rng.chance(1, 2) {
+            // same pattern: per-pattern or per-field state is the interesting case
+            p.nodes = main.nodes.clone();
+        }
+        p.hard_error_at = Some(rng.below(30) as u16);
+        main.prelude.push(p);
+    }
+    main
 }
 
 struct FaultyWriter<'a> {
@@ -239,7 +261,41 @@ impl<'a> std::fmt::Display for Pieces<'a> {
     }
 }
 
-pub fn execute(scn: &Scn, _opts: &ExecOpts) -> Outcome {
+pub fn execute(scn: &Scn, opts: &ExecOpts) -> Outcome {
+    // a fresh thread per case: thread-local state of the encoder starts clean and the case replays exactly
+    let scn2 = scn.clone();
+    let opts2 = opts.clone();
+    std::thread::spawn(move || {
+        kernel::install_panic_hook();
+        for p in &scn2.prelude {
+            let mut q = p.clone();
+            q.prelude.clear();
+            let o = execute_one(&q, &opts2);
+            if let Some(v) = o.violations.first() {
+                // only "no panic" is asserted for the prelude
+                let mut out = Outcome::default();
+                out.violations.push(v.clone());
+                out.summary.events_hash = o.summary.events_hash;
+                return out;
+            }
+        }
+        let mut main = scn2.clone();
+        main.prelude.clear();
+        let mut out = execute_one(&main, &opts2);
+        if !scn2.prelude.is_empty() {
+            out.probe("encodes_after_a_failed_encode_on_the_same_thread", 1);
+        }
+        out
+    })
+    .join()
+    .unwrap_or_else(|_| {
+        let mut o = Outcome::default();
+        o.harness_error = Some("world W thread panicked".into());
+        o
+    })
+}
+
+fn execute_one(scn: &Scn, _opts: &ExecOpts) -> Outcome {
     let mut out = Outcome::default();
     let sink = Sink::default();
     let pattern = render(&scn.nodes);
@@ -306,11 +362,23 @@ pub fn size(s: &Scn) -> usize {
             })
             .sum()
     }
-    n(&s.nodes) * 4 + s.msg_pieces.iter().map(|p| 1 + p.chars().count()).sum::<usize>() + s.target.chars().count() + s.accept.len() + s.interrupts.len()
+    s.prelude.iter().map(size).sum::<usize>() + n(&s.nodes) * 4 + s.msg_pieces.iter().map(|p| 1 + p.chars().count()).sum::<usize>() + s.target.chars().count() + s.accept.len() + s.interrupts.len()
 }
 
 pub fn shrink(s: &Scn) -> Vec<Scn> {
     let mut out = vec![];
+    for i in 0..s.prelude.len() {
+        let mut c = s.clone();
+        c.prelude.remove(i);
+        out.push(c);
+    }
+    for (i, p) in s.prelude.iter().enumerate() {
+        for q in shrink(p).into_iter().take(12) {
+            let mut c = s.clone();
+            c.prelude[i] = q;
+            out.push(c);
+        }
+    }
     for i in 0..s.nodes.len() {
         if s.nodes.len() > 1 {
             let mut c = s.clone();
